@@ -31,20 +31,20 @@ const (
 )
 
 type Trace struct {
-	Inst      *Inst
-	Refs      []*Ref // one per epoch driven
-	Blocks    []*Block
-	Discs     []Disc
-	Processed int
-	Skipped   int // old-epoch events dropped after the seal
-	Outside   string
-	Ties      int
-	Exact     int
-	MultiEv   int // blocks delivering >1 event
-	EmptyBlk  int // blocks delivering no event (Atropos already delivered: same root elected for two frames)
-	JumpRoots int // processed events whose frame is >= 2 above their self-parent's
-	CheatBlk  int // blocks with a non-empty expected cheater list
-	HiddenFork int // blocks where forks exist in the epoch so far but the expected list is empty
+	Inst        *Inst
+	Refs        []*Ref // one per epoch driven
+	Blocks      []*Block
+	Discs       []Disc
+	Processed   int
+	Skipped     int // old-epoch events dropped after the seal
+	Outside     string
+	Ties        int
+	Exact       int
+	MultiEv     int // blocks delivering >1 event
+	EmptyBlk    int // blocks delivering no event (Atropos already delivered: same root elected for two frames)
+	JumpRoots   int // processed events whose frame is >= 2 above their self-parent's
+	CheatBlk    int // blocks with a non-empty expected cheater list
+	HiddenFork  int // blocks where forks exist in the epoch so far but the expected list is empty
 	RootOrderFP uint64
 }
 
@@ -74,7 +74,7 @@ type RunOpts struct {
 	Kinds      func(epochIdx int) OrderKind
 	Inst       InstCfg
 	WithRef    bool
-	WarmReset  bool // the instance first lives through an unrelated warm-up epoch (other validators, forks, blocks) and is then Reset() to the DAG's first epoch
+	WarmReset  bool                                      // the instance first lives through an unrelated warm-up epoch (other validators, forks, blocks) and is then Reset() to the DAG's first epoch
 	OnEvent    func(t *Trace, e *Ev, newBlocks []*Block) // called after every accepted event
 	ProbeRoots bool                                      // additionally ask the store's root registry whether each Atropos is a root (touches its cache)
 }
